@@ -371,12 +371,33 @@ def quoted_holes(f, prog=None):
     return out
 
 
+def _named_template(f, n):
+    """TEMPLATE % args / TEMPLATE.format(..) with the template kept in a
+    module-level constant: the same expression with the text in place"""
+    import copy
+    def text_of(x):
+        if isinstance(x, ast.Name):
+            v = f.module.assigns.get(x.id)
+            if isinstance(v, ast.Constant) and isinstance(v.value, str):
+                return v
+        return None
+    if isinstance(n, ast.BinOp) and isinstance(n.op, ast.Mod):
+        v = text_of(n.left)
+        if v is not None:
+            m = copy.copy(n)
+            m.left = ast.copy_location(ast.Constant(value=v.value), n.left)
+            return m
+    return None
+
+
 def string_builders(f):
     for n in walk_no_nested(f.node):
         if isinstance(n, ast.BinOp) and isinstance(n.op, ast.Mod) and \
                 isinstance(n.left, ast.Constant) and isinstance(
                     n.left.value, str):
             yield n
+        elif _named_template(f, n) is not None:
+            yield _named_template(f, n)
         elif isinstance(n, ast.JoinedStr):
             yield n
         elif isinstance(n, ast.Call) and method_call(n, 'format') and \
@@ -398,6 +419,12 @@ def rule_line_templates(f):
                 isinstance(segs[2], Lit) and segs[2].text.startswith(
                     '":') and isinstance(segs[3], Hole):
             out.append((x, segs[2], segs[3]))
+        elif len(segs) >= 3 and isinstance(segs[0], Hole) and isinstance(
+                segs[0].node, ast.Call) and isinstance(
+                    segs[1], Lit) and segs[1].text.strip() == ':' and \
+                isinstance(segs[2], Hole):
+            # <name as a serialised scalar>: <value>
+            out.append((x, segs[1], segs[2]))
     return out
 
 
